@@ -201,7 +201,16 @@ const (
 	FaultHTTP  = iota // status 500
 	FaultRPC          // error member with a non-zero code
 	FaultTrunc        // body cut in the middle
+	// base requests only (others fall back to FaultRPC): the reply decodes and
+	// carries blocks, but Client.blocks/headers must reject it in validate --
+	// and they return the rejected blocks TOGETHER with the error
+	FaultBadLink  // one block is not the chain's (other hash): the next parent link is broken
+	FaultRenumber // the last block carries the wrong number
+	NFaults
 )
+
+// BadHashDelta is added to the hash id of the block a FaultBadLink reply replaces.
+const BadHashDelta = 5000
 
 type rpcReq struct {
 	ID     string            `json:"id"`
@@ -394,6 +403,16 @@ func (s *Server) handle(w http.ResponseWriter, r *http.Request) {
 	}
 	s.mu.Unlock()
 
+	corrupt := 0
+	if fail && cls == ClsBase && kind >= FaultBadLink {
+		corrupt = kind
+		if kind == FaultBadLink && len(reqs) < 2 {
+			corrupt = FaultRenumber // a single block has no link to break
+		}
+		fail = false
+	} else if fail && kind >= FaultBadLink {
+		kind = FaultRPC
+	}
 	if fail {
 		s.fault(w, kind, ids, batch)
 		return
@@ -416,7 +435,15 @@ func (s *Server) handle(w http.ResponseWriter, r *http.Request) {
 				out = append(out, map[string]any{"jsonrpc": "2.0", "id": ids[i], "result": nil})
 				continue
 			}
-			out = append(out, map[string]any{"jsonrpc": "2.0", "id": ids[i], "result": s.Chain.blockJSON(n, full)})
+			bj := s.Chain.blockJSON(n, full)
+			switch {
+			case corrupt == FaultBadLink && i == (len(reqs)-1)/2:
+				bj["hash"] = hx(Hash32(s.Chain[n].Hash + BadHashDelta))
+			case corrupt == FaultRenumber && i == len(reqs)-1:
+				bj["number"] = qn(n + 1)
+				bj["hash"] = hx(Hash32(s.Chain[n].Hash + BadHashDelta))
+			}
+			out = append(out, map[string]any{"jsonrpc": "2.0", "id": ids[i], "result": bj})
 		}
 		w.Header().Set("content-type", "application/json")
 		json.NewEncoder(w).Encode(out)
